@@ -107,6 +107,8 @@ def r1(ctx: Ctx) -> None:
     for side in ("B", "S"):
         bad = []
         for bp in w.body:
+            if bp.path.exit[0] == "raise":
+                continue  # the iteration ends in an exception (possibly raised inside a helper): nothing is carried on
             v = bp.path.env.get(w.var[side])
             allowed = {w.loop.phi[w.var[side]]} | ({bp.pops[side].term} if side in bp.pops else set())
             if v not in allowed:
